@@ -7,7 +7,7 @@ from pyerr import exc_code
 import props.c06_impl as I
 
 PROP = 'C06'
-COQ_TARGETS = ['theories/NetFacts.vo', 'theories/NetTerm.vo', 'theories/NetTerm2.vo', 'theories/NetReply.vo', 'theories/NetOnce.vo']
+COQ_TARGETS = ['theories/NetFacts.vo', 'theories/NetTerm.vo', 'theories/NetTerm2.vo', 'theories/NetReply.vo', 'theories/NetOnce.vo', 'theories/NetRoute.vo']
 COQ_IMPORTS = 'From Bac Require Import Base Net.'
 RULE = ('cases: (a) single-node scripts - a random node (station told nothing / its address / network+address, or router of 2..4 '
         'ports with or without an application) receives 1..6 events (cache learning, application sends of every address kind, '
@@ -601,13 +601,13 @@ def cases(rng, tier):
     big = tier == 'thorough'
     for ports, app, ev in (grid_scripts() if big else grid_scripts()[::4 if SCALE >= 1 else 12]):
         out.append(case_script('node-grid', ports, app, ev))
-    for _ in range(_n(12000 if big else 1600)):
+    for _ in range(_n(8000 if big else 1600)):
         ports, app, ev = rnd_script(rng)
         out.append(case_script('node-script', ports, app, ev))
-    for _ in range(_n(1500 if big else 90)):
+    for _ in range(_n(800 if big else 90)):
         topo = rnd_tree(rng, 8 if rng.random() < 0.5 else 4, apps=rng.random() < 0.4)
         out.append(case_world('tree-script', topo, rnd_world_script(rng, topo, rng.randrange(1, 6), 3000)))
-    for _ in range(_n(60 if big else 12)):
+    for _ in range(_n(40 if big else 12)):
         topo = ring(rng, rng.choice([3, 4]), tail=rng.random() < 0.4)
         out.append(case_world('ring-script', topo, rnd_world_script(rng, topo, rng.randrange(1, 3), 250)))
     rng.shuffle(out)        # spread the expensive whole-trace cases evenly over the Coq shards
@@ -869,7 +869,7 @@ def direct(rng, tier, focus=()):
             failures.append(f)
 
     # --- trees: every (source, kind, destination), cold start, caches warming as traffic flows
-    for t in range(_n(120 if big else 24)):
+    for t in range(_n(80 if big else 24)):
         topo = rnd_tree(rng, 8 if t % 2 == 0 else 5)
         triples = [(src, kind, dest, rec) for src in topo.station_ids for (kind, dest, rec) in all_dests(topo, src)]
         rng.shuffle(triples)
@@ -920,7 +920,7 @@ def direct(rng, tier, focus=()):
             hist['hop-chain'] += 1
             nontriv.add(('hop', k, h))
     # --- cycles: termination (and bounded duplication) only
-    for t in range(_n(30 if big else 8)):
+    for t in range(_n(20 if big else 8)):
         topo = ring(rng, 3 + t % 2, tail=(t % 3 == 0))
         for variant in ('cold-discovery', 'cold-broadcasts', 'installed'):
             net = build(topo)
@@ -948,7 +948,7 @@ def direct(rng, tier, focus=()):
     for ports, app, ev in grid_scripts()[::3]:
         note_list += node_checks(ports, app, ev)
         n_eval += 1
-    for _ in range(_n(20000 if big else 3000)):
+    for _ in range(_n(15000 if big else 3000)):
         ports, app, ev = rnd_script(rng)
         note_list += node_checks(ports, app, ev)
         n_eval += 1
